@@ -277,6 +277,19 @@ fn exec(c: &Case, ps: &[Parent], rep: &mut Report) -> Option<(Value, String)> {
             if got[0] != got[1] {
                 return Some((json!({"kind": "keyderive_not_deterministic"}), format!("paths {paths:?}")));
             }
+            // the parent key handed over through a pipe (`keyderive /dev/stdin ..`): same files
+            {
+                let mut a = vec!["keyderive".to_string(), "/dev/stdin".to_string(), "dpipe".to_string()];
+                a.extend(paths.iter().map(|p| format!("--path={p}")));
+                let o = cli::run(&exe, dir, &a, Some(&parent.file_bytes));
+                rep.transitions += 1;
+                if !o.status.success() {
+                    return Some((json!({"kind": "keyderive_fails", "parent": "pipe"}), format!("parent key on /dev/stdin, paths {paths:?}: {}", String::from_utf8_lossy(&o.stderr))));
+                }
+                if read_pair("dpipe")? != got[0] {
+                    return Some((json!({"kind": "keyderive_depends_on_how_the_parent_is_delivered"}), format!("paths {paths:?}: parent read from a pipe gives other files than the same bytes read from a regular file")));
+                }
+            }
             // composition: derive along (p1..pn) == derive along p1, then p2.. from the result
             if paths.len() >= 2 {
                 let o1 = run_derive("parent", "step1", &paths[..1]);
